@@ -205,7 +205,9 @@ JudgeLabwareOp(tr, T, ev) ==
     Cl("C04.vol", valid /\ rout = "ok" /\ ev.out = "ok", post.vol[k] = rvol),
     Cl("C04.accept", valid /\ rout = "ok" /\ kwok /\ (viaWl => fits /\ T.dev # "base" /\ a.labelok), ev.out = "ok"),
     Cl("C04.reject", ~P.ok, ev.out # "ok" /\ post.vol = vol),
-    Cl("C02.outcome", valid /\ rout \in {"overflow", "underflow"}, ev.out = rout),
+    \* (when the same call is also refused for another reason - a step above the worklist's max_volume, an invalid keyword
+    \* argument or label - no property says which of the two reasons is reported: the class of the error is then not judged)
+    Cl("C02.outcome", valid /\ rout \in {"overflow", "underflow"} /\ (viaWl => fits /\ kwok /\ a.labelok), ev.out = rout),
     Cl("C02.offender", valid /\ rout \in {"overflow", "underflow"},
        \E n \in 0..rn : post.vol[k] = (IF isAdd THEN AddPrefix(L, vol[k], P.ws, P.vs, n)
                                        ELSE RemovePrefix(L, vol[k], P.ws, P.vs, n))),
